@@ -30,7 +30,7 @@ CLAIMED = {
 NOT_YET = {
  "C14": "decided by rustc's type checker over a corpus of programs: no schedule, clock, fault or history for a simulator to control (DESIGN.md section 4, C14)",
 }
-PENDING = {k: 'check not built yet (work in progress, see DESIGN.md)' for k in ['C04','C09','C10','C13','C15','C16']}
+PENDING = {k: 'check not built yet (work in progress, see DESIGN.md)' for k in ['C04','C09','C13']}
 
 CLAIMED.update({
  "C02": ("fault_enumeration", "crash", "4.C02",
@@ -45,6 +45,22 @@ CLAIMED.update({
    "After n = 0..6 commits whose states all differ and a clean close, every byte offset of either header page is mutated five ways (xor 0x01, xor 0x80, xor 0xff, zero, seeded byte), plus page zero / ones, record zero, seeded multi-byte overwrites and the other header's record copied over; one run in four first rewrites both headers in the legacy (SHA3) format. Each image is reopened: open must succeed without panic and show in full the state of the header the format still considers valid (the independent checker's rule decides whether a mutation invalidated the header; for bytes neither checksummed nor used either state is accepted).",
    "exhaustive over offsets and the listed mutations for the sampled histories; page size 1024 in quick, 1024-4096 in thorough",
    "deterministic simulation with fault injection: exhaustive single-byte media damage of either header"),
+})
+
+
+CLAIMED.update({
+ "C10": ("exploration", "seq-long", "4.C10",
+   "Long runs (200-400 transactions in quick, 1000-3000 in thorough) of five steady-state workloads (fixed-size overwrite, variable-size overwrite with multi-page values, sliding-window insert/delete, bucket create/delete churn, mixed), with periodic close+reopen or a reader pinned across a stretch. After every commit the independent checker reads the page high-water mark, live and free pages from the raw file. Oracle, independent of the number of transactions: hwm <= 5*L+16 where L is the largest number of live pages ever seen (worst observed ratio on the repaired tree: 2.45), the second half of the run (or, with a pinned reader, everything from five transactions after it closed) may not raise the mark by more than 2+L/2 pages, the pinned reader still reads its snapshot, and the file is no longer than the mark rounded up to the growth step plus one step.",
+   "the constants are calibrated on the repaired tree with about 2x head-room; reader variants start with a 16 MiB file (reader + growing writer on one thread self-deadlocks by construction)",
+   "deterministic simulation: long seeded histories, growth bound read from the raw file after every commit"),
+ "C15": ("exploration", "compat", "4.C15",
+   "Version change as a restart onto an old node's disk: the pinned release (vendored verbatim as crate jammdb_pinned) writes a seeded database at page size 1024 / 4096 / 5000 / 16384 with nested buckets, multi-page values and a non-empty free list; the independent reader must agree; the current tree must then show identical contents, run a seeded continuation under the model oracle and the file checker, and the pinned release must read what the current tree wrote; the same with both headers rewritten in the legacy SHA3 format; every other page size of the set must be refused with zero write/extend/sync calls and unchanged bytes. Eight byte-exact golden images produced from the pinned commit are committed with their recorded contents and checked on every run.",
+   "fixed set of page sizes; the vendored copy is the pinned commit's src/ verbatim; fsck.rs encodes the pinned layout",
+   "deterministic simulation: old-version disk images as the restart state, cross-version read-back, golden images"),
+ "C16": ("exploration", "seq-cfg", "4.C16",
+   "One seeded history (generated once, sizes independent of the page size under test; one in five is a growth history that writes >30 MiB from a 4-page file) is executed under option sets from the product page size {1024,1032,2048,3000,4096,5000,16384,65536,1 MiB} x initial pages {4,32,1000} x strict x populate (all in thorough, a seeded dozen with the corners in quick), each in its own child process. Every run must pass the model oracle (so strict mode never rejects a valid commit), all transcripts of returned values must be identical, and a child killed by a signal is a violation. Page sizes that are not a multiple of 8 must work identically or be refused before the file is touched.",
+   "populate with files above 256 MiB is excluded (eager population of sparse tmpfs per child); which neighbour a seek for an absent key lands on is layout dependent and kept out of the transcript",
+   "deterministic simulation: same seed under every configuration, child-process isolation, transcript equality"),
 })
 
 def main():
